@@ -13,6 +13,11 @@
 // RotWord/Rcon in native-endian columns, the Nk = 4/6/8 schedules incl. the extra SubWord of AES-256, key order and
 // AESIMC placement of inv_expanded_keys, round counts (KEYS - 2 full rounds + final), LD1/ST1, union arm selection by the
 // CPUID token.
+// (never compiled: lets lib/bcv/shadow.py find the cuf1! invocations of the instruction model, which is copied into the
+// shadow crate as src/verif_arch.rs and is not a harness file)
+#[cfg(any())]
+#[path = "/verif/harness/aes/arm_model.rs"]
+mod scan_arm_model;
 use super::ni_model;
 use super::prelude::*;
 use crate::verif_arch as va;
